@@ -103,7 +103,34 @@ fn main() {
     }
     let share: f64 = arg(&args, "--budget-share").and_then(|s| s.parse().ok()).unwrap_or(1.0);
     let budget = budget.mul_f64(share);
+    let xn: isize = std::env::var("SYMK_XCHECK").ok().and_then(|s| s.parse().ok()).unwrap_or(16);
+    symk::runner::XCHECK_WANTED.store(xn, std::sync::atomic::Ordering::SeqCst);
     let res = run_jobs(jobs, threads, Some(t0 + budget));
+    // ---- cross-solver check: re-decide a sample of final obligations with cvc5 and the older z3
+    let mut xc = (0u64, 0u64, 0u64, Vec::<String>::new()); // checked, agreed, inconclusive, disagreements
+    for r in res.iter() {
+        for p in r.reports.iter() {
+            if let Some(script) = &p.script {
+                if xc.0 >= xn as u64 {
+                    break;
+                }
+                let expect_unsat = matches!(p.verdict, Verdict::Holds);
+                let expect_sat = matches!(p.verdict, Verdict::Violation { .. });
+                if !expect_unsat && !expect_sat {
+                    continue;
+                }
+                for solver in ["cvc5", "/usr/bin/z3"] {
+                    xc.0 += 1;
+                    match symk::solver::decide_standalone(solver, script, 20) {
+                        symk::solver::Sat::Unknown => xc.2 += 1,
+                        symk::solver::Sat::Unsat if expect_unsat => xc.1 += 1,
+                        symk::solver::Sat::Sat if expect_sat => xc.1 += 1,
+                        other => xc.3.push(format!("{} on an obligation of job {}: {:?}, engine said {}", solver, r.name, other, if expect_unsat { "unsat" } else { "sat" })),
+                    }
+                }
+            }
+        }
+    }
     let bounds = match tier {
         Tier::Quick => def.bounds_quick,
         Tier::Thorough => def.bounds_thorough,
@@ -144,11 +171,17 @@ fn main() {
         ("native_profile", J::s(if cfg!(debug_assertions) { "dev (overflow checks, debug assertions)" } else { "release (wrapping arithmetic)" })),
         ("tier", J::s(if tier == Tier::Quick { "quick" } else { "thorough" })),
         ("seed", J::I(seed as i64)),
-        ("coverage", sum.json.clone()),
+        ("coverage", {
+            let mut c = sum.json.clone();
+            if let J::O(kv) = &mut c {
+                kv.push(("cross_solver_check".to_string(), J::obj(vec![("obligations_redecided", J::I(xc.0 as i64)), ("agree", J::I(xc.1 as i64)), ("inconclusive_timeout", J::I(xc.2 as i64)), ("solvers", J::s("cvc5 1.0, z3 4.8.12"))])));
+            }
+            c
+        }),
         ("wall_s", J::F(wall)),
         ("violations", J::A(vio_json)),
         ("mismatches", J::A(mm_json)),
-        ("engine_errors", J::A(sum.engine_errors.iter().map(|e| J::s(e)).collect())),
+        ("engine_errors", J::A(sum.engine_errors.iter().chain(xc.3.iter()).map(|e| J::s(e)).collect())),
         ("unknowns", J::I(sum.unknowns as i64)),
     ]);
     let out_path = arg(&args, "--out").unwrap_or_else(|| format!(".build/symk-{}.json", id));
@@ -167,7 +200,10 @@ fn main() {
         sum.unknowns,
         wall
     );
-    if !sum.engine_errors.is_empty() || !sum.mismatches.is_empty() {
+    if !sum.engine_errors.is_empty() || !sum.mismatches.is_empty() || !xc.3.is_empty() {
+        for e in xc.3.iter().take(3) {
+            eprintln!("  cross-solver disagreement: {}", e);
+        }
         for e in sum.engine_errors.iter().take(5) {
             eprintln!("  engine error: {}", e);
         }
